@@ -72,12 +72,12 @@ def plan(tier):
         "min_nontrivial": 16 if q else 300,
         "required_counters": ["commands_judged", "once_checked", "verbatim_checked", "result_compared",
                               "shell_commands", "local_commands", "template_commands", "timeouts_injected",
-                              "commands_after_timeout_judged"],
+                              "commands_after_timeout_judged", "inheritance_checked"],
         "rule": "sequence of 2..8 probe commands on one target (local / persistent shell / command template), each with "
                 "0..3 hostile arguments (quoted by the caller), 0..3 environment values and an optional working directory "
                 "from the hostile string classes, payload 0 B..128 KiB (1 MiB thorough; text / utf-8 / blank / arbitrary "
                 "bytes, with or without trailing newline), exit status 0..255, optional sleep beyond timeout=1, 30% of the timeout-free shell/local sequences issued "
-                "concurrently; distinct "
+                "concurrently; commands with and without workdir / environment are interleaved; distinct "
                 "= distinct (target, command spec, position); non-trivial = anything but an empty-output status-0 "
                 "command without env/workdir/args.",
         "exhaustive": False,
@@ -423,6 +423,10 @@ async def run_case(env, sh: Shard, case: dict):
         sh.count("commands_judged")
         sh.count("once_checked")
         sh.count("verbatim_checked", len(tag["dumps"]))
+        if k > 0 and tag["dumps"] and rtag["dumps"]:
+            sh.count("inheritance_checked")  # cwd / whole environment compared with the fresh reference, after >= 1 earlier command
+            if any((c["env"] or c["wd"] is not None) for c in cmds[:k]) and (cmd["env"] is None or cmd["wd"] is None):
+                sh.count("inheritance_checked_after_env_or_workdir")
         if ref[0] == "ok" and sut[0] == "ok" and cmd["capture"]:
             sh.count("result_compared")
         after_timeout = last_shell_timeout is not None and last_shell_timeout == k - 1
@@ -492,7 +496,7 @@ async def control(env, sh, case, k, cmd, cdir, twin_env: bool, twin_wd: bool, su
     rec = await exec_cmd(env, sh, target, c2, cdir, k, env_map=env_map, wd_name=wd, suffix=suffix)
     ref = await asyncio.to_thread(run_reference, env, c2, rec)
     sh.count("control_runs")
-    ok = not judge(c2, rec["environment"], rec["workdir"], rec["sut"], ref, PR.read_tag(rec["tagdir"]), None)
+    ok = not judge(c2, rec["environment"], rec["workdir"], rec["sut"], ref, PR.read_tag(rec["tagdir"]), PR.read_tag(rec["reftag"]))
     env.control_cache[key] = ok
     return ok
 
@@ -578,6 +582,12 @@ def _directed_seq(target):
     stderr, no-newline / multi-chunk / byte payloads, and (shell, local) a timeout followed by two commands."""
     seq = [
         _c({"status": 0, "size": 200}, env=dict(_BENIGN_ENV), wd="work.dir", args=["plain", "two words", "a$HOME `id` q'q d\"d"]),
+        # benign strings only: a command with neither workdir nor environment right after one that had both must not
+        # inherit anything (cwd, VF_* variables) from it; then one with only a workdir, one with only an environment
+        _c({"status": 0, "size": 30, "seed": 21}, env=None, wd=None),
+        _c({"status": 0, "size": 30, "seed": 22}, env=None, wd="wd"),
+        _c({"status": 0, "size": 30, "seed": 23}, env={"VF_LONG_NAME_1": "only-here"}, wd=None),
+        _c({"status": 0, "size": 30, "seed": 24}, env=None, wd=None),
         _c({"status": 255, "size": 70000, "kind": "utf8", "nl": False, "err": "warn: something\n"}, env={"VF_A": "üñí✓"}, wd="üñí"),
         _c({"status": 130, "size": 5, "kind": "blank"}, env=dict(_HOSTILE_ENV), wd="wd"),
         _c({"status": 3, "size": 1000}, env=dict(_HOSTILE_ENV2), wd="a b"),
@@ -592,6 +602,10 @@ def _directed_seq(target):
             _c({"status": 4, "size": 10, "seed": 14, "nl": False, "err": "partial stderr without newline"}, env=None, wd=None),
             _c({"status": 0, "size": 64}, env={"VF_A": "x"}, wd="gone", wd_missing=True),
         ]
+    if target in ("tpl-full", "tpl-only"):
+        for c in seq:  # the service template always renders `cd {{ streamflow_workdir }}`
+            if c["wd"] is None:
+                c["wd"] = "wd"
     return {"target": target, "cmds": seq, "directed": True}
 
 
